@@ -133,7 +133,7 @@ func vxRunBuild(cfg vxRunCfg, id string, fs *env.FS, chip string, db string, nev
 func vxRunConfigGlobals(parallel bool, rpmSkew int, window int) {
 	configuration.CurrentConfig = configuration.Configuration{
 		RpmRollingWindowSize:           window,
-		TempRollingWindowSize:          10,
+		TempRollingWindowSize:          997,
 		RpmPollingRate:                 time.Second + time.Duration(rpmSkew)*time.Microsecond,
 		TempSensorPollingRate:          200 * time.Millisecond,
 		ControllerAdjustmentTickRate:   200 * time.Millisecond,
